@@ -1153,6 +1153,8 @@ class WcParse(Generic[AnyStr]):
                 if self._sequence_range_check(result, value):
                     removed = True
                 end_range = 0
+                # The end of the range may have been an escape (two characters): a hyphen right after it is literal
+                escape_hyphen = i.index
             else:
                 result.append(value)
 
